@@ -23,7 +23,7 @@ from ..absint import Interp, Frame, State, SelfV, FHV, Vec, Rng, Arr, Tup, K, Op
 from ..index import AnalysisError, ClassInfo, dotted
 from ..lin import Facts
 from .. import astq
-from ._c05_arrays import (Picks, AInterp, Q, Env, Uneval, Nd, Src, Buf, View, Cat, Flat, Resh2, ColAgg, Tile, Rep, Elem, Ser,
+from ._c05_arrays import (Strided, Picks, AInterp, Q, Env, Uneval, Nd, Src, Buf, View, Cat, Flat, Resh2, ColAgg, Tile, Rep, Elem, Ser,
                           SYMDEFS, CONST_VECS, ZERO, ONE, OOB, const_vec, entails, sym_elem, sym_mod, subst_val, vec_len, is_nan)
 from .c05 import check_fh_models, check_shift_model, Ob, eq_lin, feasible, nonvacuous, loop_envs, resolve, fmt, witness_text, construct, run_method
 
@@ -475,6 +475,19 @@ def classify(term, e, q):
         # flat position f = s0 + e' holds series position pos(e'); column j collects f ≡ j (mod m)
         pos = c.pos.subst({"@e": e - s0})
         return Cls("cls", pos, m, c.lo, c.hi)
+    if isinstance(term, Buf) and term.ndim == 1 and len(term.stores) == 1 and not term.poisoned:
+        # one store per season: buf[j] = nan-skipping mean of window[j::m]
+        st_ = term.stores[0]
+        if len(st_.loops) == 1 and isinstance(st_.loops[0].it, Rng) and st_.loops[0].it.step == ONE and st_.loops[0].it.lo == ZERO \
+                and st_.box[0][2] and st_.box[0][0] == st_.loops[0].var and isinstance(st_.value, Opq) \
+                and st_.value.tag in ("scalar-nanmean", "scalar-mean") and st_.value.args and isinstance(st_.value.args[0], Strided):
+            sd = st_.value.args[0]
+            m = st_.loops[0].it.hi
+            if q.eq(sd.step, m) is True and sd.start == st_.loops[0].var and q.eq(term.shape[0], m) is True:
+                inner = classify(sd.base, Lin.sym("@e"), q)
+                if inner is not None and inner.kind == "at":
+                    return Cls("cls", inner.pos.subst({"@e": e}), m, inner.lo, inner.hi)
+        return None
     if isinstance(term, Rep):
         return None
     return None
@@ -586,6 +599,8 @@ def rule_naive_predict(ctx, repo, runs):
             eq_lin(ctx, "R2", k + ":length", loc, ret.shape[0], LFH, s.facts, envs, "length of the returned forecast array")
             check_reshapes(ctx, k, loc, ret, s.facts, envs)
             check_padding(ctx, k, loc, ret, s.facts)
+            if sc.strategy == "mean":
+                check_nan_aware(ctx, k, loc, ret)
             check_selection(ctx, k, loc, ret, sc, s.facts, envs)
 
 
@@ -648,6 +663,39 @@ def paddings_of(term, out=None):
     elif isinstance(term, (View, Tile, ColAgg, Flat, Resh2)):
         paddings_of(term.base, out)
     return out
+
+
+def aggregates_of(term, out=None, depth=0):
+    out = [] if out is None else out
+    if depth > 8:
+        return out
+    if isinstance(term, ColAgg):
+        out.append(getattr(term, "kind", "nanmean"))
+        aggregates_of(term.base, out, depth + 1)
+    elif isinstance(term, Opq) and term.tag in ("scalar-nanmean", "scalar-mean"):
+        out.append(term.tag[len("scalar-"):])
+    elif isinstance(term, Rep):
+        aggregates_of(term.value, out, depth + 1)
+    elif isinstance(term, Buf):
+        for st_ in term.stores:
+            aggregates_of(st_.value, out, depth + 1)
+    elif isinstance(term, Cat):
+        for p_ in term.parts:
+            aggregates_of(p_, out, depth + 1)
+    elif isinstance(term, (View, Tile, Flat, Resh2, Strided)):
+        aggregates_of(term.base, out, depth + 1)
+    return out
+
+
+def check_nan_aware(ctx, k, loc, ret):
+    """The mean strategy averages the *observed* values: every aggregate of window values must skip missing values."""
+    kinds = aggregates_of(ret)
+    if not kinds:
+        return
+    ctx.check(all(x == "nanmean" for x in kinds), "R2", k + ":mean-skips-missing-values",
+              "window values are averaged with the NaN-skipping mean",
+              "window values are averaged with a plain mean: one missing value in a season turns that season's forecast into NaN "
+              "instead of the mean of the observed values", loc, witness={"season_values": "[8, nan, 13]", "forecast": "nan", "expected": "10.5"})
 
 
 def check_padding(ctx, k, loc, ret, facts):
@@ -1836,6 +1884,57 @@ def rule_theta_pipeline(ctx, repo):
                   witness={"deseasonalize": flag, "returned": repr(rets)})
 
 
+def rule_cutoff_restored(ctx, repo):
+    """R4: in-sample predictions move the cutoff; when _predict_in_sample returns the forecaster's cutoff is again the one it
+    had (otherwise every later predict() is made from the last in-sample cutoff)."""
+    cls = repo.cls(NAIVE + ":NaiveForecaster")
+    hit = repo.lookup_method(cls, "_predict_in_sample")
+    k, fn = hit
+    loc = ctx.loc(k.module, fn)
+    tag = "%s._predict_in_sample:cutoff-restored" % k.name
+
+    def hooks(interp, frame, call, fname, args, kwargs, st, _base=make_hooks(Rec())):
+        simple = (fname or "").split(".")[-1]
+        sym = interp.repo.resolve_dotted(frame.module, fname) if fname else None
+        if sym is not None and sym.kind == "class" and sym.target.name == "CutoffSplitter":
+            return Opq("CutoffSplitter")
+        if simple in ("_update_predict_single", "_predict_fixed_cutoff", "_predict", "_format_moving_cutoff_predictions", "_predict_last_window"):
+            return Opq("forecast")
+        return _base(interp, frame, call, fname, args, kwargs, st)
+
+    it = AInterp(repo, scenario={"fh.is_all_in_sample": True, "fh.is_all_out_of_sample": False}, hooks=hooks,
+                 no_inline=NO_INLINE + ("_update_predict_single", "_predict_fixed_cutoff", "_predict", "_format_moving_cutoff_predictions"))
+    ytrain = Ser("y", N, T)
+    selfv = SelfV(cls, {"_y": ytrain, "_X": K(None), "_cutoff": T, "window_length_": W, "_fh": FH, "_is_fitted": K(True)})
+    f = Facts()
+    f.add_cmp(FHL, "<=", 0)
+    f.add_cmp(FH0, "<=", FHL)
+    f.add_cmp(N, ">=", 1)
+    f.add_cmp(W, ">=", 1)
+    try:
+        traces, _ = it.run_function(Frame(k.module, fn, cls, k), {"self": selfv, "fh": FH, "X": K(None)}, State(facts=f))
+    except AnalysisError as e:
+        ctx.undecided("R4", tag, str(e), loc)
+        return
+    finals = []
+    for s_, o in traces:
+        if o[0] in ("return", "fall"):
+            finals.append(s_.heap.get((id(selfv), "_cutoff"), selfv.attrs.get("_cutoff")) if hasattr(s_, "heap") else selfv.attrs.get("_cutoff"))
+    if not finals:
+        ctx.undecided("R4", tag, "no normal return", loc)
+        return
+    bad = [v for v in finals if not (as_lin_val(v) is not None and as_lin_val(v) == T)]
+    if not bad:
+        ctx.ok("R4", tag, "when _predict_in_sample returns, the cutoff is the one it had before (moved cutoffs are undone on every path)", loc)
+        return
+    v = bad[0]
+    lv = as_lin_val(v)
+    derived = (lv is not None and lv != T) or (isinstance(v, Opq) and v.tag in ("index-elem", "elem", "index"))
+    ctx.check(False if derived else None, "R4", tag, "",
+              "when _predict_in_sample returns, the cutoff is left at %r instead of being put back: every later predict() forecasts from "
+              "the last in-sample cutoff" % (v,), loc, witness={"history": "fit(y); predict(fh=[-2]); predict(fh=[1])", "cutoff_after": repr(v)})
+
+
 def check_last_window_at_cutoff(ctx, repo):
     """R4 (dependency): in-sample predictions move the cutoff inside the stored series; the window the naive forecaster reads
     must end at that cutoff.  Decided by C05's rule for _get_last_window, evaluated here and reported under this property."""
@@ -1900,6 +1999,7 @@ def run(ctx):
     rule_naive_predict(ctx, repo, runs)
     rule_in_sample(ctx, repo)
     rule_moving_cutoff(ctx, repo)
+    rule_cutoff_restored(ctx, repo)
     check_last_window_at_cutoff(ctx, repo)
     rule_time_axis(ctx, repo)
     rule_forwarding(ctx, repo)
